@@ -198,6 +198,9 @@ class ExposeSensor(Device):
 
     async def _periodic_send_impl(self) -> None:
         """Endless loop for periodic sending of sensor value."""
+        if self._cooldown_task is not None and not self._cooldown_task.done():
+            # a value was sent less than one cooldown ago - the cooldown sends what is pending
+            return
         if self._payload_after_cooldown is not None:
             self.sensor_value.send_raw(self._payload_after_cooldown)
             self._restart_cooldown()
